@@ -36,10 +36,12 @@ MCInit ==
 
 Manuals(a) == Cardinality({i \in RecIdx(a) : a.recBy[i] = "manual"})
 
+ManualSample(e) == Manuals(alg[Own(e)]) < MaxManual /\ SampleCall(e)
+
 MCNext ==
   \E e \in Objects :
      \/ Iterate(e)
-     \/ (Manuals(alg[Own(e)]) < MaxManual /\ SampleCall(e))
+     \/ ManualSample(e)
 
 MCSpec == MCInit /\ [][MCNext]_vars
 
